@@ -227,7 +227,11 @@ fn generic_ranges(cx: &mut Ctx, doc: &Doc, method: &str, params: &Value, v: &Val
     cx.report.add("ranges_checked", rs.len() as u64);
     for (path, r) in rs {
         if let Some(e) = doc.check_range(r) {
-            let class = if r.1.0 as usize == doc.lines.len() && r.1.1 == 0 { Some("range-ends-at-line-count") } else { None };
+            // known finding: `LuaDocument::get_document_lsp_range` ends at (line_count, 0); keyed by the requests
+            // that return a whole-document range and by exactly that end position
+            let whole_doc = matches!(method, "textDocument/formatting" | "textDocument/rangeFormatting" | "textDocument/definition"
+                | "textDocument/prepareCallHierarchy" | "callHierarchy/incomingCalls" | "callHierarchy/outgoingCalls");
+            let class = if whole_doc && r.0 == (0, 0) && r.1.0 as usize == doc.lines.len() && r.1.1 == 0 { Some("whole-document-range-ends-at-line-count") } else { None };
             cx.fail(format!("{method}: result{path}: {e}"), doc.text, method, params, class);
             return;
         }
@@ -367,19 +371,29 @@ fn semantic_tokens(cx: &mut Ctx, s: &mut Session, doc: &Doc, multiline: bool, le
         let arg = if es.is_empty() { "-".to_string() } else {
             es.iter().map(|e| format!("{}:{}:{}:{}:{}", e[0], e[1], e[2], e[3], e[4])).collect::<Vec<_>>().join(";")
         };
-        if !dup && es.len() <= 4000 {
+        if es.len() <= 4000 {
             let expect = if data.is_empty() { "ok -".to_string() } else {
                 format!("ok {}", data.chunks(5).map(|c| format!("{}:{}:{}:{}:{}", c[0], c[1], c[2], c[3], c[4])).collect::<Vec<_>>().join(";"))
             };
             cx.tie(format!("lspshape.build {arg}"), expect, json!({"text": doc.text, "method": method}));
         }
-        // oracle on the builder itself: what the client decodes is a permutation of what was pushed
-        let mut a: Vec<[u64; 5]> = es.iter().map(|e| [e[0] as u64, e[1] as u64, e[2] as u64, e[3] as u64, e[4] as u64]).collect();
-        let mut b = toks.clone();
-        a.sort();
-        b.sort();
-        if a != b {
-            cx.fail(format!("{method}: decoded tokens differ from the builder's entries"), doc.text, method, &params, None);
+        // oracle on the builder itself: no token is invented — every decoded token is a pushed entry
+        // (same start, type, modifiers), possibly shortened; nothing is lost when the entries were disjoint
+        for t in &toks {
+            let ok = es.iter().any(|e| e[0] as u64 == t[0] && e[1] as u64 == t[1] && e[3] as u64 == t[3] && e[4] as u64 == t[4] && t[2] <= e[2] as u64);
+            if !ok {
+                cx.fail(format!("{method}: decoded token {t:?} is not one of the builder's entries"), doc.text, method, &params, None);
+                break;
+            }
+        }
+        let mut sorted: Vec<&[u32; 5]> = es.iter().filter(|e| e[2] > 0).collect();
+        sorted.sort_by_key(|e| (e[0], e[1]));
+        let input_ordered = sorted.windows(2).all(|w| w[0][0] < w[1][0] || (w[0][0] == w[1][0] && w[0][1] + w[0][2] <= w[1][1]));
+        if input_ordered && sorted.len() != toks.len() {
+            cx.fail(format!("{method}: {} disjoint entries pushed but {} tokens decoded", sorted.len(), toks.len()), doc.text, method, &params, None);
+        }
+        if !input_ordered {
+            cx.report.count("semantic_entries_overlapping_input");
         }
     } else if !toks.is_empty() {
         cx.report.count("semantic_entries_not_recorded");
